@@ -87,6 +87,33 @@ theorem token_strings_unique (b : Backend) (p : Purpose) (fk : FooterKind) (s₁
   · right; left; rw [← a, ← c]
   · left; rw [← a, ← c]
 
+/-! the same three statements for a payload type with *any* encoding suffix (`Payload::SUFFIX`; the harness exercises `"c"`):
+    `Display` writes version ‖ suffix ‖ purpose and `FromStr` accepts exactly that order -/
+
+theorem token_show_parse_suffix (b : Backend) (p : Purpose) (fk : FooterKind) (sf : Bytes) (t : SealedTok)
+    (hf : fk.ok t.footer = true) :
+    tokRtSuf b p fk sf (showToken (Extracted.versionHeader b) sf (Extracted.kindHeader p.toKind) t) =
+      .ok (showToken (Extracted.versionHeader b) sf (Extracted.kindHeader p.toKind) t, t.footer) := by
+  unfold tokRtSuf
+  rw [parseToken_showToken _ _ _ _ t hf]
+  rfl
+
+theorem token_canonical_suffix (b : Backend) (p : Purpose) (fk : FooterKind) (sf s : Bytes) (t : SealedTok)
+    (h : parseToken (Extracted.versionHeader b) sf (Extracted.kindHeader p.toKind) fk.ok s = .ok t) :
+    showToken (Extracted.versionHeader b) sf (Extracted.kindHeader p.toKind) t = s ∨
+    showToken (Extracted.versionHeader b) sf (Extracted.kindHeader p.toKind) t ++ [dot] = s :=
+  showToken_parseToken _ _ _ _ s t h
+
+/-- every accepted token string starts with version ‖ suffix ‖ purpose, in this order -/
+theorem token_header_order (b : Backend) (p : Purpose) (fk : FooterKind) (sf s : Bytes) (t : SealedTok)
+    (h : parseToken (Extracted.versionHeader b) sf (Extracted.kindHeader p.toKind) fk.ok s = .ok t) :
+    (Extracted.versionHeader b ++ sf ++ Extracted.kindHeader p.toKind) <+: s := by
+  rcases token_canonical_suffix b p fk sf s t h with e | e
+  · rw [← e]; unfold showToken
+    exact ⟨encode t.payload ++ (if t.footer.isEmpty then [] else dot :: encode t.footer), by simp only [List.append_assoc]⟩
+  · rw [← e]; unfold showToken
+    exact ⟨encode t.payload ++ (if t.footer.isEmpty then [] else dot :: encode t.footer) ++ [dot], by simp only [List.append_assoc]⟩
+
 /-- KeyText, PIE-wrapped, password-wrapped and sealed keys: show ∘ parse and parse ∘ show -/
 theorem simple_show_parse (b : Backend) (f : Form) (d : Bytes) :
     parseSimple (f.h1 b) (f.h2 b) (showSimple (f.h1 b) (f.h2 b) d) = .ok d :=
